@@ -204,12 +204,22 @@ func cmdC15(args []string) error {
 		for r := 0; r < *runs; r++ {
 			procs := []int{1, 2, 3, 4, 8, 16}[(k+r)%6]
 			prev := runtime.GOMAXPROCS(procs)
-			opt, maps, err := realOptimize(firstPatch, oldDir, newDir, op)
+			opr := op
+			var again []byte
+			if r%3 == 1 {
+				// same parameters, but the pools have been read through before and the context optimizes twice: the
+				// bytes written must not depend on what an earlier run left behind in a pool or a context
+				opr.Pools, opr.Again = &optPools{}, &again
+			}
+			opt, maps, err := realOptimize(firstPatch, oldDir, newDir, opr)
 			runtime.GOMAXPROCS(prev)
 			if err != nil {
 				line.OptErrs = append(line.OptErrs, err.Error())
 			}
 			line.OptShas = append(line.OptShas, sha(opt))
+			if opr.Again != nil && err == nil {
+				line.OptShas = append(line.OptShas, sha(again))
+			}
 			ms := ""
 			for si := int64(0); si < int64(len(sourceContainer.Files)); si++ {
 				if m, ok := maps[si]; ok {
